@@ -336,10 +336,185 @@ func overflowExplains(d bstDriver, h []bstOp) bool {
 	return hi-lo > d.val(d.nvals()-1)
 }
 
+// ---------------------------------------------------------------- long histories
+
+// bstSlide drives a tree the way MovingMax / MovingMin do, over long series: insert x[i], remove x[i-w] once the window is
+// full, and compare Min, Max, Contains (of the inserted, the removed and a never inserted value) and the result of Remove
+// with a counting multiset after every step; at the end the window is removed element by element.
+func bstSlide[T helper.Number](c *core.Ctx, tname, sname string, xs []T, w int, absent T) {
+	t := helper.NewBst[T]()
+	count := map[T]int{}
+	size := 0
+	label := fmt.Sprintf("Bst[%s] as a sliding window of %d over the %s series of %d values", tname, w, sname, len(xs))
+	fail := func(step int, msg string) {
+		c.Fail("", fmt.Sprintf("%s, step %d: %s", label, step, msg), map[string]any{"element_type": tname, "series": sname, "window": w, "length": len(xs), "step": step})
+	}
+	check := func(step int) bool {
+		if size == 0 {
+			return true
+		}
+		first := true
+		var lo, hi T
+		for v, n := range count {
+			if n == 0 {
+				continue
+			}
+			if first || v < lo {
+				lo = v
+			}
+			if first || v > hi {
+				hi = v
+			}
+			first = false
+		}
+		if t.Min() != lo {
+			fail(step, fmt.Sprintf("Min = %v, multiset minimum is %v", t.Min(), lo))
+			return false
+		}
+		if t.Max() != hi {
+			fail(step, fmt.Sprintf("Max = %v, multiset maximum is %v", t.Max(), hi))
+			return false
+		}
+		return true
+	}
+	remove := func(step int, v T) bool {
+		got := t.Remove(v)
+		want := count[v] > 0
+		if got != want {
+			fail(step, fmt.Sprintf("Remove(%v) returned %v but the multiset holds %d of it", v, got, count[v]))
+			return false
+		}
+		if want {
+			count[v]--
+			size--
+		}
+		if t.Contains(v) != (count[v] > 0) {
+			fail(step, fmt.Sprintf("Contains(%v) = %v after the removal but the multiset holds %d of it", v, t.Contains(v), count[v]))
+			return false
+		}
+		return true
+	}
+	steps := int64(0)
+	defer func() {
+		c.States += steps
+		c.Evaluations += steps
+		c.Nontrivial += steps
+		c.Executions += steps
+		c.Transitions += steps
+	}()
+	for i, x := range xs {
+		t.Insert(x)
+		count[x]++
+		size++
+		steps++
+		if !t.Contains(x) {
+			fail(i, fmt.Sprintf("Contains(%v) is false right after Insert", x))
+			return
+		}
+		if count[absent] == 0 && t.Contains(absent) {
+			fail(i, fmt.Sprintf("Contains(%v) is true for a value that was never inserted", absent))
+			return
+		}
+		if i >= w && !remove(i, xs[i-w]) {
+			return
+		}
+		if !check(i) {
+			return
+		}
+	}
+	for i := max(0, len(xs)-w); i < len(xs); i++ {
+		steps++
+		if !remove(len(xs)+i, xs[i]) || !check(len(xs)+i) {
+			return
+		}
+	}
+	if size != 0 {
+		fail(2*len(xs), fmt.Sprintf("model holds %d elements after removing the whole window", size))
+	}
+}
+
+// longSeries: staircases with duplicates, plateaus, a sawtooth and a de Bruijn series (every window of 5 symbols once).
+func longSeries(n int) map[string][]int {
+	out := map[string][]int{}
+	up, down, saw, flat, pairs := make([]int, n), make([]int, n), make([]int, n), make([]int, n), make([]int, n)
+	for i := 0; i < n; i++ {
+		up[i] = i / 2
+		down[i] = (n - i) / 3
+		saw[i] = (i % 37) - (i%5)*3
+		flat[i] = 7
+		pairs[i] = (i / 2) * (1 - 2*(i/2%2)) // 0,0,-1,-1,2,2,-3,-3 ...
+	}
+	db, _ := deBruijn(5, n)
+	out["rising staircase (each value twice)"], out["falling staircase (each value three times)"] = up, down
+	out["sawtooth"], out["constant"], out["alternating growing pairs"], out["de Bruijn over 5 values"] = saw, flat, pairs, db
+	return out
+}
+
+func bstLongUnit(c *core.Ctx, n int) {
+	for name, xs := range longSeries(n) {
+		fs := make([]float64, len(xs))
+		i64 := make([]int64, len(xs))
+		for i, x := range xs {
+			fs[i] = float64(x) + 0.25
+			i64[i] = int64(x)*(1<<40) + 1
+		}
+		for _, w := range []int{1, 2, 9, 70, 150, n} {
+			bstSlide(c, "int", name, xs, w, -99999)
+			bstSlide(c, "float64", name, fs, w, -99999.5)
+			bstSlide(c, "int64", name, i64, w, -5)
+		}
+	}
+}
+
+// ringLongUnit: a ring that wraps hundreds of times, read positionally after every step.
+func ringLongUnit(c *core.Ctx, n int) {
+	for _, capacity := range []int{1, 2, 7, 64, 65, 100, 1000} {
+		r := helper.NewRing[int](capacity)
+		var model []int
+		steps := int64(0)
+		for i := 0; i < n; i++ {
+			steps++
+			full := len(model) == capacity
+			got := r.Put(i)
+			if full {
+				if got != model[0] {
+					c.Fail("", fmt.Sprintf("Ring[int] capacity %d, put number %d: returned %d, displaced oldest element is %d", capacity, i, got, model[0]), nil)
+					return
+				}
+				model = model[1:]
+			}
+			model = append(model, i)
+			if r.IsFull() != (len(model) == capacity) || r.IsEmpty() {
+				c.Fail("", fmt.Sprintf("Ring[int] capacity %d after %d puts: IsFull=%v IsEmpty=%v with %d elements", capacity, i+1, r.IsFull(), r.IsEmpty(), len(model)), nil)
+				return
+			}
+			for _, k := range []int{0, len(model) / 2, len(model) - 1} {
+				if r.At(k) != model[k] {
+					c.Fail("", fmt.Sprintf("Ring[int] capacity %d after %d puts: At(%d) = %d, %d-th oldest element is %d", capacity, i+1, k, r.At(k), k, model[k]), nil)
+					return
+				}
+			}
+			if i%7 == 6 { // a Get now and then moves the read position as well
+				g, ok := r.Get()
+				if !ok || g != model[0] {
+					c.Fail("", fmt.Sprintf("Ring[int] capacity %d after %d puts: Get = (%d,%v), oldest element is %d", capacity, i+1, g, ok, model[0]), nil)
+					return
+				}
+				model = model[1:]
+			}
+		}
+		c.States += steps
+		c.Evaluations += steps
+		c.Nontrivial += steps
+		c.Executions += steps
+		c.Transitions += steps
+	}
+}
+
 func init() {
 	core.Register(&core.Check{
 		ID:   "C17",
-		Rule: "explicit-state BFS over operation histories of the real Ring and Bst objects with deduplication on the deep dump of the concrete object (sound: deterministic objects with equal concrete state have equal futures); Ring to fixpoint for capacities 1..4 (5 thorough) over values {1,2,3}; Bst per element type over {min,-1,0,1,max} with multiset size bounded; after every transition every query is compared with the bounded-FIFO / multiset model; non-trivial = non-initial states",
+		Rule: "explicit-state BFS over operation histories of the real Ring and Bst objects with deduplication on the deep dump of the concrete object (sound: deterministic objects with equal concrete state have equal futures); Ring to fixpoint for capacities 1..4 (5 thorough) over values {1,2,3}; Bst per element type over {min,-1,0,1,max} with multiset size bounded; after every transition every query is compared with the bounded-FIFO / multiset model; non-trivial = non-initial states; plus long deterministic histories: the tree driven as a sliding window (sizes 1, 2, 9, 70, 150, all) over staircases with duplicates, plateaus, a sawtooth, alternating growing pairs and a de Bruijn series of 1 200 (6 000) values in int, int64 and float64, and rings of capacity 1..1000 wrapping through 4 800 (24 000) puts, every query compared with the model after every step",
 		Assume: []string{"Ring values range over {1,2,3} (int elements); Bst values over five values per type including both extremes; multiset size <= 5 (quick) / 7 (thorough)",
 			"Put on a non-full ring and At beyond the current size are unconstrained by the property and not compared"},
 		Units: func(tier string) []core.Unit {
@@ -356,6 +531,12 @@ func init() {
 				d := d
 				us = append(us, core.Unit{Key: "bst-" + d.name(), Cost: 100, Run: func(c *core.Ctx) { bstUnit(c, d, maxSize) }})
 			}
+			long := 1200
+			if tier == "thorough" {
+				long = 6000
+			}
+			us = append(us, core.Unit{Key: "bst-long-histories", Cost: 200, Run: func(c *core.Ctx) { bstLongUnit(c, long) }})
+			us = append(us, core.Unit{Key: "ring-long-histories", Cost: 50, Run: func(c *core.Ctx) { ringLongUnit(c, 4*long) }})
 			return us
 		},
 	})
